@@ -262,11 +262,12 @@ class SymbolGraph(metaclass=SingletonMeta):
         :param type_: The symbol type to look for
         :return: All wrapped instances that refer to an instance of the given type.
         """
-        yield from (
-            instance.instance
-            for cls in [type_] + recursive_subclasses(type_)
-            for instance in list(self._class_to_wrapped_instances[cls])
-        )
+        for cls in [type_] + recursive_subclasses(type_):
+            for wrapped_instance in list(self._class_to_wrapped_instances[cls]):
+                # an instance may die while the caller is iterating
+                instance = wrapped_instance.instance
+                if instance is not None:
+                    yield instance
 
     def get_wrapped_instance(self, instance: Any) -> Optional[WrappedInstance]:
         if isinstance(instance, WrappedInstance):
